@@ -29,7 +29,8 @@ package main
 //              F                          `reload` refused: the files do not load, no new worker
 //   table  = <servers>^<certificates>;  servers = be=row+row;be=row…  row = srv~ip~port~state~weight;  certificates = file~id+…
 //   running = table of the NEWEST worker after the reconcile, disk = what the files on disk would load now.
-// faults = `-` or b<n>,… (the n-th runtime command, 0 based, is refused).
+// faults = `-` or b<n>,… (the n-th runtime command, 0 based, is refused) or r<n> (the n-th `reload` request on the
+// master socket, 0 based, is refused once: event F, no new worker).
 //
 // The Lean side (Model/C02Sock.lean, Drv/C02Sock.lean) replays the events on its model of generations and
 // connections, compares its newest table with <running> (agreement; also: no command reached a former worker and
@@ -328,7 +329,9 @@ func (h *c02hap) serveMaster(conn net.Conn) {
 		h.settleLocked()
 		h.reloadTr++
 		w := &c02worker{len(h.workers), world.NewSim(h.cfgDir)}
-		_, _ = w.sim.Master().Send(nil, "reload")
+		if _, refuse := h.faults[-h.reloadTr]; !refuse {
+			_, _ = w.sim.Master().Send(nil, "reload")
+		}
 		if w.sim.Reloads == 1 {
 			h.failed = 0
 			h.workers = append(h.workers, w)
@@ -473,6 +476,11 @@ func c02sockFaults(s string) map[int]string {
 		if len(f) >= 2 && f[0] == 'b' {
 			n, _ := strconv.Atoi(f[1:])
 			m[n] = "No such server."
+		}
+		if len(f) >= 2 && f[0] == 'r' {
+			// the n-th `reload` request on the master socket (0 based) is refused once: a transient failure
+			n, _ := strconv.Atoi(f[1:])
+			m[-(n + 1)] = "refuse"
 		}
 	}
 	return m
@@ -672,6 +680,8 @@ func c02sockRandom(c *ctx, r *gen.Rng, n int) {
 		faults := "-"
 		if r.Chance(1, 4) {
 			faults = "b" + strconv.Itoa(r.Intn(12))
+		} else if r.Chance(1, 3) {
+			faults = "r" + strconv.Itoa(r.Range(1, 4))
 		}
 		c.stat("sock_rnd", 1)
 		c02sockHist(c, faults, c02sockHistory(kinds))
@@ -713,6 +723,13 @@ func runC02Sock(c *ctx, r *gen.Rng) {
 	// the same around a certificate renewal, and with a refused command in between
 	c02sockHist(c, "-", c02sockHistory([]int{4, 2, 4}))
 	c02sockHist(c, "b1", c02sockHistory([]int{0, 0, 1}))
+	// a reload that fails ONCE (fault r<n>: the n-th reload request is refused), then updates that fit the runtime
+	// API: the owed reload has to be retried whatever the next update sends (after seed C02h)
+	c02sockHist(c, "r1", c02sockHistory([]int{2, 0}))
+	c02sockHist(c, "r1", c02sockHistory([]int{2, 4, 0}))
+	c02sockHist(c, "r1", c02sockHistory([]int{3, 0, 1}))
+	c02sockHist(c, "r1", c02sockHistory([]int{2, 7, 0}))
+	c02sockHist(c, "r2", c02sockHistory([]int{0, 2, 6, 5}))
 	if c.thorough() {
 		c02sockExhaustive(c, 4, 5)
 		c02sockRandom(c, r.Fork(), 200)
